@@ -537,12 +537,21 @@ pub fn string_split(
 
     let s = interp.to_js_string(&this);
     let separator_arg = args.first().cloned();
-    let limit = args.get(1).map(|v| v.to_number() as usize);
+    // lim = ToUint32(limit): a negative limit wraps around, a missing or undefined one
+    // means "no limit" (2^32 - 1)
+    let limit = match args.get(1) {
+        None | Some(JsValue::Undefined) => u32::MAX,
+        Some(v) => v.to_uint32(),
+    } as usize;
 
     let parts: Vec<JsValue> = match separator_arg {
         // Per ECMAScript spec: if separator is undefined, return array containing original string
         Some(JsValue::Undefined) | None => {
-            vec![JsValue::String(JsString::from(s.to_string()))]
+            if limit == 0 {
+                vec![]
+            } else {
+                vec![JsValue::String(JsString::from(s.to_string()))]
+            }
         }
         Some(sep) => {
             // Check if separator is a RegExp
@@ -566,19 +575,10 @@ pub fn string_split(
                             .into_iter()
                             .map(|p| JsValue::String(JsString::from(p)))
                             .collect();
-                        return match limit {
-                            Some(l) => {
-                                let limited: Vec<JsValue> = split.into_iter().take(l).collect();
-                                let guard = interp.heap.create_guard();
-                                let arr = interp.create_array_from(&guard, limited);
-                                Ok(Guarded::with_guard(JsValue::Object(arr), guard))
-                            }
-                            None => {
-                                let guard = interp.heap.create_guard();
-                                let arr = interp.create_array_from(&guard, split);
-                                Ok(Guarded::with_guard(JsValue::Object(arr), guard))
-                            }
-                        };
+                        let limited: Vec<JsValue> = split.into_iter().take(limit).collect();
+                        let guard = interp.heap.create_guard();
+                        let arr = interp.create_array_from(&guard, limited);
+                        return Ok(Guarded::with_guard(JsValue::Object(arr), guard));
                     }
                     #[cfg(not(feature = "regex"))]
                     {
@@ -594,26 +594,17 @@ pub fn string_split(
             let sep_str = interp.to_js_string(&sep);
             if sep_str.is_empty() {
                 // Empty separator - split into characters
-                let chars: Vec<JsValue> = s
-                    .as_str()
+                s.as_str()
                     .chars()
+                    .take(limit)
                     .map(|c| JsValue::String(JsString::from(c.to_string())))
-                    .collect();
-                match limit {
-                    Some(l) => chars.into_iter().take(l).collect(),
-                    None => chars,
-                }
+                    .collect()
             } else {
-                let split: Vec<&str> = s.as_str().split(sep_str.as_str()).collect();
-                let result: Vec<JsValue> = split
-                    .into_iter()
+                s.as_str()
+                    .split(sep_str.as_str())
+                    .take(limit)
                     .map(|p| JsValue::String(JsString::from(p)))
-                    .collect();
-                // Apply limit after collecting all parts
-                match limit {
-                    Some(l) => result.into_iter().take(l).collect(),
-                    None => result,
-                }
+                    .collect()
             }
         }
     };
@@ -641,7 +632,10 @@ pub fn string_repeat(
     }
     // A result that cannot be allocated is a RangeError too, not a capacity overflow panic
     let count = count as usize;
-    if s.len().checked_mul(count).is_none_or(|n| n > MAX_STRING_LENGTH) {
+    if s.len()
+        .checked_mul(count)
+        .is_none_or(|n| n > MAX_STRING_LENGTH)
+    {
         return Err(JsError::range_error("Invalid string length"));
     }
     Ok(Guarded::unguarded(JsValue::String(JsString::from(
